@@ -168,6 +168,7 @@ class VC:
                 C.assume(st.nseen <= st.coll.count)
         for cl in spec.inv(env, st):
             C.assume(cl[1])
+        C.cover(f"{self.fn_name}.cover.loop{k}.invariant_satisfiable")
         st.var0 = spec.variant(env, st)
         st.local_ok_ids = {nm: id(env[nm]) for nm in getattr(spec, "local_ok", ()) if nm in env}
         C.mutated = {}
@@ -221,6 +222,7 @@ class VC:
 _BUILTIN_OVERRIDES = {
     "len": sym.vc_len,
     "max": sym.vc_max,
+    "min": sym.vc_min,
     "set": sym.vc_set,
     "list": sym.vc_list,
     "bool": sym.vc_bool,
